@@ -16,6 +16,12 @@ use truc::record::{
 #[derive(Clone, Copy)]
 pub struct Ty<const S: usize, const A: usize>;
 
+/// Marker type whose HOST size (192) and alignment (64) are larger than anything the synthetic resolver
+/// answers: a builder that takes the maximum of the two, or falls back to the host, shows.
+#[derive(Clone, Copy)]
+#[repr(align(64))]
+pub struct TyBig<const S: usize, const A: usize>([u8; 192]);
+
 pub struct SynthResolver;
 
 pub fn parse_shape(name: &str) -> (usize, usize, bool) {
@@ -32,8 +38,8 @@ pub fn parse_shape(name: &str) -> (usize, usize, bool) {
 impl TypeResolver for SynthResolver {
     fn type_info<T>(&self) -> TypeInfo {
         let n = std::any::type_name::<T>();
-        if let Some(p) = n.find("Ty<") {
-            let inner = &n[p + 3..n.len() - 1];
+        if let Some((p, skip)) = n.find("TyBig<").map(|p| (p, 6)).or_else(|| n.find("Ty<").map(|p| (p, 3))) {
+            let inner = &n[p + skip..n.len() - 1];
             let mut it = inner.split(',').map(|x| x.trim().parse::<usize>().unwrap());
             let s = it.next().unwrap();
             let a = it.next().unwrap();
@@ -84,13 +90,14 @@ pub const TYPED: [(usize, usize); 12] = [
     (5, 1),
 ];
 
-pub fn add_typed(b: &mut NB, shape: (usize, usize), name: String, uninit: bool) -> Result<DatumId, String> {
+pub fn add_typed(b: &mut NB, shape: (usize, usize), name: String, uninit: bool, big: bool) -> Result<DatumId, String> {
     macro_rules! go {
         ($s:literal, $a:literal) => {
-            if uninit {
-                b.add_datum_allow_uninit::<Ty<$s, $a>, _>(name)
-            } else {
-                b.add_datum::<Ty<$s, $a>, _>(name)
+            match (uninit, big) {
+                (true, false) => b.add_datum_allow_uninit::<Ty<$s, $a>, _>(name),
+                (false, false) => b.add_datum::<Ty<$s, $a>, _>(name),
+                (true, true) => b.add_datum_allow_uninit::<TyBig<$s, $a>, _>(name),
+                (false, true) => b.add_datum::<TyBig<$s, $a>, _>(name),
             }
         };
     }
@@ -113,11 +120,17 @@ pub fn add_typed(b: &mut NB, shape: (usize, usize), name: String, uninit: bool) 
 
 /// override entry point with a typed base: only the flag is overridden, name / size / alignment are the
 /// resolver's answers for the marker type (whose host size is 0 and host alignment 1)
-pub fn add_partial_override(b: &mut NB, shape: (usize, usize), name: String, uninit: bool) -> Result<DatumId, String> {
-    let ov = DatumDefinitionOverride { type_name: None, size: None, align: None, allow_uninit: Some(uninit) };
+pub fn add_partial_override(b: &mut NB, shape: (usize, usize), name: String, uninit: bool, big: bool) -> Result<DatumId, String> {
+    // with the big marker the alignment is overridden too (by the very value the resolver answers): a builder
+    // that combines an override with the HOST's alignment of the base type shows
+    let ov = DatumDefinitionOverride { type_name: None, size: None, align: if big { Some(shape.1) } else { None }, allow_uninit: Some(uninit) };
     macro_rules! go {
         ($s:literal, $a:literal) => {
-            b.add_datum_override::<Ty<$s, $a>, _>(name, ov)
+            if big {
+                b.add_datum_override::<TyBig<$s, $a>, _>(name, ov)
+            } else {
+                b.add_datum_override::<Ty<$s, $a>, _>(name, ov)
+            }
         };
     }
     match shape {
@@ -240,19 +253,25 @@ pub fn apply(b: &mut NB, scratch_res: &SynthResolver, r: &Req) -> Vec<u64> {
             let shape = (*size as usize, *align as usize);
             let tyn = format!("S{}A{}", size, align);
             let entry = if (*entry == 0 || *entry == 4) && !TYPED.contains(&shape) { 2 } else { *entry };
+            // every other field name uses the marker types whose host size / alignment exceed the synthetic ones
+            let big = name % 2 == 1;
             let res = match entry {
-                0 => add_typed(b, shape, nm, *uninit),
-                4 => add_partial_override(b, shape, nm, *uninit),
+                0 => add_typed(b, shape, nm, *uninit, big),
+                4 => add_partial_override(b, shape, nm, *uninit, big),
                 1 => b.add_dynamic_datum(nm, if *uninit { format!("{}U", tyn) } else { tyn }),
-                2 => b.add_datum_override::<(), _>(
-                    nm,
-                    DatumDefinitionOverride {
+                2 => {
+                    let ov = DatumDefinitionOverride {
                         type_name: Some(tyn),
                         size: Some(shape.0),
                         align: Some(shape.1),
                         allow_uninit: Some(*uninit),
-                    },
-                ),
+                    };
+                    if big {
+                        b.add_datum_override::<TyBig<0, 1>, _>(nm, ov)
+                    } else {
+                        b.add_datum_override::<(), _>(nm, ov)
+                    }
+                }
                 _ => {
                     // copy_datum from a definition made elsewhere
                     let mut sb = NativeRecordDefinitionBuilder::new(scratch_res);
